@@ -132,6 +132,14 @@ func loopBody(body []lStmt, e lElem, silent bool) (string, int) {
 					return out.String(), s
 				}
 			}
+		case "capblk":
+			// the block of a block helper is part of the loop body: the helper hands
+			// back what the block produced, break / continue reach the loop
+			o, s := loopBody(st.body, e, false)
+			out.WriteString(o)
+			if s != sigNone {
+				return out.String(), s
+			}
 		case "retv":
 			switch st.text {
 			case "k":
@@ -188,6 +196,8 @@ func printMulti(body []lStmt, d int) string {
 			}
 		case "ifblk":
 			fmt.Fprintf(&sb, "<%%= if (%s) { %%>%s<%% } %%>", st.cond.print(d), printMulti(st.body, d))
+		case "capblk":
+			fmt.Fprintf(&sb, "<%%= cap() { %%>%s<%% } %%>", printMulti(st.body, d))
 		case "retv":
 			fmt.Fprintf(&sb, "<%% return %s %%>", retSrc(st.text, d))
 		}
@@ -241,6 +251,7 @@ type c08Gen struct {
 	valSrc  []string
 	noKey   bool
 	noBreak bool
+	noRet   bool // inside a helper's block: only break / continue leave it for the loop
 	classes map[string]bool
 }
 
@@ -271,6 +282,9 @@ func (g *c08Gen) cond(nElems int) lCond {
 func (g *c08Gen) act() string {
 	a := pick(g.r, []string{"break", "continue", "return"})
 	if g.noBreak && a == "break" {
+		a = "continue"
+	}
+	if g.noRet && a == "return" {
 		a = "continue"
 	}
 	return a
@@ -315,6 +329,10 @@ func (g *c08Gen) body(depth, nElems int, single bool) []lStmt {
 		case k == 7 && depth > 0 && !single:
 			out = append(out, lStmt{kind: "ifblk", cond: g.cond(nElems), body: g.body(depth-1, nElems, single)})
 			g.classes["if-block"] = true
+		case k == 8 && !single && depth > 0:
+			sub := &c08Gen{r: g.r, classes: g.classes, vals: g.vals, valSrc: g.valSrc, noKey: g.noKey, noBreak: g.noBreak, noRet: true}
+			out = append(out, lStmt{kind: "capblk", body: sub.body(depth-1, nElems, false)})
+			g.classes["helper-block"] = true
 		case k == 8 && single && depth > 0:
 			out = append(out, lStmt{kind: "ifblk", cond: g.cond(nElems), body: g.body(depth-1, nElems, single)})
 			g.classes["if-block"] = true
@@ -341,7 +359,7 @@ func (g *c08Gen) body(depth, nElems int, single bool) []lStmt {
 		if !g.noKey && g.r.Chance(1, 3) {
 			out[len(out)-1].text = "k"
 		}
-	} else if g.r.Chance(1, 6) {
+	} else if !g.noRet && g.r.Chance(1, 6) {
 		out = append(out, lStmt{kind: "retv", text: pick(g.r, []string{"v", "Z"})})
 	}
 	return out
@@ -650,7 +668,7 @@ func c08ControlFree(body []lStmt) bool {
 			return false
 		case "innersep":
 			return false // the unrolled form would re-declare the separator per element: compare with the reference only
-		case "inner", "ifblk":
+		case "inner", "ifblk", "capblk":
 			if !c08ControlFree(st.body) {
 				return false
 			}
@@ -661,6 +679,8 @@ func c08ControlFree(body []lStmt) bool {
 
 func c08Class(g *c08Gen) string {
 	switch {
+	case g.classes["helper-block"]:
+		return "with-helper-block"
 	case g.classes["ctl-after-inner-loop"]:
 		return "control-after-inner-loop"
 	case g.classes["ctl-after-fn-literal"]:
@@ -677,7 +697,7 @@ func init() {
 	core.Register(&core.Prop{
 		ID:      "C08",
 		Level:   "exploration",
-		Rule:    "random loops: iterable from {[]int len 0-6, []string, []interface{}, array, *[]int, array literal, range/between/until, custom Iterator, nil, nil slice, nil map, nil pointers to slice / array / map, map[string]int, map[int]string, map[float64]string with a NaN key, empty map, 6 non-iterables incl. a nil pointer to a struct} x (key,value)/(value) heads x bodies from a statement grammar (text, key, value, let, fn literal, if-guarded break/continue/return in 3 tag forms at any position, if blocks, inner loops in output/silent form with their own control statements, trailing return), printed multi-tag or single-tag; nesting depth <= 2. Oracle: a reference loop interpreter (one body evaluation per element in order; continue/break/return keep what the iteration produced); maps compared as multisets of bracketed iterations; control-free bodies additionally compared with the same body rendered element by element (unrolling). Non-trivial = every generated loop (distinct by template hash).",
+		Rule:    "random loops: iterable from {[]int len 0-6, []string, []interface{}, array, *[]int, array literal, range/between/until, custom Iterator, nil, nil slice, nil map, nil pointers to slice / array / map, map[string]int, map[int]string, map[float64]string with a NaN key, empty map, 6 non-iterables incl. a nil pointer to a struct} x (key,value)/(value) heads x bodies from a statement grammar (text, key, value, let, fn literal, if-guarded break/continue/return in 3 tag forms at any position, if blocks, blocks of a block helper with break/continue inside, inner loops in output/silent form with their own control statements, trailing return), printed multi-tag or single-tag; nesting depth <= 2. Oracle: a reference loop interpreter (one body evaluation per element in order; continue/break/return keep what the iteration produced); maps compared as multisets of bracketed iterations; control-free bodies additionally compared with the same body rendered element by element (unrolling). Non-trivial = every generated loop (distinct by template hash).",
 		Assume:  []string{"map bodies contain no break (visiting order is unspecified)", "text inside silent if blocks before a control statement is not generated (unspecified whether it is kept)"},
 		Batches: batchesQT(16, 64),
 		Run:     c08Run,
